@@ -53,7 +53,7 @@ def gname(var):
     import gotranx.myokit as gm
 
     n = var.uname()
-    return f"{n}_" if n in gm.reserved_names else n
+    return f"{n}_" if (n in gm.reserved_names or n in ("t", "time")) else n
 
 
 def mk_eval(model, state, t):
@@ -82,8 +82,13 @@ def compare_rhs(model, mod, out, cn, label, rng, name_of):
     for st, t in pts:
         try:
             want = mk_eval(model, st, t)
-            st2 = [math.nextafter(v, math.inf) for v in st]
-            want2 = mk_eval(model, st2, t)
+            # conditioning: the same evaluation one ulp away in the states and in time, in both directions
+            # (a point that sits exactly on a discontinuity of floor / a comparison decides nothing)
+            nudge = lambda v, sgn: v * (1 + sgn * 1e-13) if v else sgn * 1e-13
+            alts = [mk_eval(model, [math.nextafter(v, math.inf) for v in st], t), mk_eval(model, [math.nextafter(v, -math.inf) for v in st], t),
+                    mk_eval(model, [nudge(v, 1) for v in st], nudge(t, 1)), mk_eval(model, [nudge(v, -1) for v in st], nudge(t, -1)),
+                    mk_eval(model, st, nudge(t, 1)), mk_eval(model, st, nudge(t, -1))]
+            want2 = [max(col, key=lambda q: abs(q - w) if math.isfinite(q) else math.inf) for w, col in zip(want, zip(*alts))]
         except Exception as exc:
             cn["myokit_eval_errors"] = cn.get("myokit_eval_errors", 0) + 1
             continue
